@@ -10,7 +10,7 @@
 (* Classes are a closed table of regexes whose meaning over the token      *)
 (* alphabet is unambiguous:                                                *)
 (*    any = [^/]+   dig = \d+   num = [1-9][0-9]*   word = \w+             *)
-(*    all = .*      rest1 = .+                                             *)
+(*    all = .*      rest1 = .+      ab = (?:a|b)+   (note the ':' inside)  *)
 (* Decomps(pat, path) is the SET of all ways the whole path decomposes     *)
 (* along the pattern; the oracle never depends on regexp greediness.       *)
 (***************************************************************************)
@@ -31,6 +31,7 @@ ClassOK(k, c, first) ==
     [] k = "word"  -> c \in WordCh
     [] k = "all"   -> TRUE
     [] k = "rest1" -> TRUE
+    [] k = "ab"    -> c \in {"a", "b"}
 MinLen(k)    == IF k = "all" THEN 0 ELSE 1
 SpansSlash(k) == k \in {"all", "rest1"}
 
